@@ -738,6 +738,76 @@ def_tests = [
 ]
 
 
+def read_parameter_value(text: str) -> str | None:
+    """Read the value of a named constant from the text that follows its name
+    in the declaration: `[(shape)] [*length] = value [, next entity ...]`.
+    The value ends at the first comma that is outside parentheses, brackets
+    and character literals.
+    """
+    n = len(text)
+    i = 0
+
+    def skip_blanks(i: int) -> int:
+        while i < n and text[i] in " \t&":
+            i += 1
+        return i
+
+    def skip_group(i: int) -> int:
+        # text[i] opens a parenthesised or bracketed group: return the index
+        # behind its end, literals inside are passed over
+        depth = 0
+        quote = None
+        while i < n:
+            c = text[i]
+            if quote is not None:
+                if c == quote:
+                    quote = None
+            elif c in "'\"":
+                quote = c
+            elif c in "([":
+                depth += 1
+            elif c in ")]":
+                depth -= 1
+                if depth == 0:
+                    return i + 1
+            i += 1
+        return n
+
+    i = skip_blanks(i)
+    if i < n and text[i] == "(":  # shape of an array constant
+        i = skip_blanks(skip_group(i))
+    if i < n and text[i] == "*":  # character length
+        i = skip_blanks(i + 1)
+        if i < n and text[i] == "(":
+            i = skip_group(i)
+        else:
+            while i < n and (text[i].isalnum() or text[i] == "_"):
+                i += 1
+        i = skip_blanks(i)
+    if i >= n or text[i] != "=" or text[i + 1 : i + 2] == ">":
+        return None
+    i += 1
+    start = i
+    quote = None
+    while i < n:
+        c = text[i]
+        if quote is not None:
+            if c == quote:
+                quote = None
+            i += 1
+        elif c in "'\"":
+            quote = c
+            i += 1
+        elif c in "([":
+            i = skip_group(i)
+        elif c == "," or c == "!":
+            break
+        else:
+            i += 1
+    value = " ".join(text[start:i].replace("&", " ").strip().split())
+    return value if value else None
+
+
 def find_external_type(file_ast: FortranAST, desc_string: str, name: str) -> bool:
     """Encountered a variable with EXTERNAL as its type
     Try and find an already defined variable with a
@@ -1547,9 +1617,8 @@ class FortranFile:
                         #  the value in hover
                         if new_var.is_parameter():
                             _, col = find_word_in_line(line, name)
-                            match = FRegex.PARAMETER_VAL.match(line[col:])
-                            if match:
-                                var = " ".join(match.group(1).strip().split())
+                            var = read_parameter_value(line[col:])
+                            if var is not None:
                                 new_var.set_parameter_val(var)
 
                         # Check if the "variable" is external and if so cycle
